@@ -233,10 +233,11 @@ class World:
 
     # ---- fault-injecting writer / reader
     def faulty_writer(self, fuel):
+        """EoWriter subclass that logs the sanitisation mode at every outermost primitive call (self.wmodes) and, if fuel >= 0,
+        raises instead of making the (fuel+1)-th such call."""
         W = self.writer_mod.EoWriter
-        if fuel < 0:
-            return W()
-        state = {"left": fuel}
+        state = {"left": fuel, "depth": 0}
+        modes = self.wmodes = []
         prim = ("add_byte", "add_bytes", "add_char", "add_short", "add_three", "add_int", "add_string", "add_fixed_string",
                 "add_encoded_string", "add_fixed_encoded_string")
 
@@ -246,6 +247,9 @@ class World:
             def mk(name=name):
                 base = getattr(W, name)
                 def f(self, *a, **k):
+                    if state["depth"] > 0:                      # a primitive implemented on top of another one (add_string -> add_bytes)
+                        return base(self, *a, **k)
+                    modes.append(bool(self.string_sanitization_mode))
                     if state["left"] == 0:
                         state["left"] = -1
                         e = RuntimeError("injected fault")
@@ -253,16 +257,19 @@ class World:
                         raise e
                     if state["left"] > 0:
                         state["left"] -= 1
-                    return base(self, *a, **k)
+                    state["depth"] += 1
+                    try:
+                        return base(self, *a, **k)
+                    finally:
+                        state["depth"] -= 1
                 return f
             setattr(FW, name, mk())
         return FW()
 
     def faulty_reader(self, data, fuel):
         R = self.reader_mod.EoReader
-        if fuel < 0:
-            return R(data)
-        state = {"left": fuel}
+        state = {"left": fuel, "depth": 0}
+        modes = self.rmodes = []
         prim = ("get_byte", "get_bytes", "get_char", "get_short", "get_three", "get_int", "get_string", "get_fixed_string",
                 "get_encoded_string", "get_fixed_encoded_string", "next_chunk")
 
@@ -272,6 +279,9 @@ class World:
             def mk(name=name):
                 base = getattr(R, name)
                 def f(self, *a, **k):
+                    if state["depth"] > 0:
+                        return base(self, *a, **k)
+                    modes.append(bool(self.chunked_reading_mode))
                     if state["left"] == 0:
                         state["left"] = -1
                         e = RuntimeError("injected fault")
@@ -279,7 +289,11 @@ class World:
                         raise e
                     if state["left"] > 0:
                         state["left"] -= 1
-                    return base(self, *a, **k)
+                    state["depth"] += 1
+                    try:
+                        return base(self, *a, **k)
+                    finally:
+                        state["depth"] -= 1
                 return f
             setattr(FR, name, mk())
         return FR(data)
@@ -310,6 +324,7 @@ class World:
         out["bytes"] = list(w.to_bytearray())
         out["san_end"] = bool(w.string_sanitization_mode)
         out["calls"] = self.calls
+        out["modes"] = list(self.wmodes)
         p = self.progs.get(c["prog"])
         if p and p["kind"] == "packet":
             try:
@@ -335,6 +350,7 @@ class World:
         out["ch_end"] = bool(r.chunked_reading_mode)
         out["remaining"] = r.remaining
         out["calls"] = self.calls
+        out["modes"] = list(self.rmodes)
         return out
 
     def run_rt(self, c):
